@@ -202,6 +202,14 @@ func enumerate(doc *c07.JV) []*edit {
 			// null has a single value: nothing to alter within its type
 		default:
 			out = append(out, &edit{Kind: "alter-leaf", Path: p})
+			// smallest meaningful changes within the type: the sign of a
+			// non-integer number, a carriage return against a line feed
+			if v.K == c07.Flt && v.F != 0 {
+				out = append(out, &edit{Kind: "negate-leaf", Path: p})
+			}
+			if v.K == c07.Str && strings.ContainsAny(v.S, "\r\n") {
+				out = append(out, &edit{Kind: "swap-cr-lf", Path: p})
+			}
 		}
 	}
 	rec(doc, nil)
@@ -233,6 +241,25 @@ func apply(doc *c07.JV, e *edit) *c07.JV {
 			x.B = !x.B
 			e.Now = fmt.Sprint(x.B)
 		}
+	case "negate-leaf":
+		x := at(d, e.Path)
+		e.Was = fmt.Sprint(x.F)
+		x.F = -x.F
+		x.Raw = ""
+		e.Now = fmt.Sprint(x.F)
+	case "swap-cr-lf":
+		x := at(d, e.Path)
+		e.Was = x.S
+		x.S = strings.Map(func(r rune) rune {
+			switch r {
+			case '\r':
+				return '\n'
+			case '\n':
+				return '\r'
+			}
+			return r
+		}, x.S)
+		e.Now = x.S
 	case "remove-member":
 		par := at(d, e.Path[:len(e.Path)-1])
 		k := e.Path[len(e.Path)-1]
@@ -396,6 +423,8 @@ func short(s string) string {
 	return s
 }
 
+func f64(x float64) *float64 { return &x }
+
 // generated builds a few documents of other kinds with awkward strings.
 func generated() map[string]string {
 	out := map[string]string{}
@@ -418,6 +447,9 @@ func generated() map[string]string {
 		Emails:     []*org.Email{{Address: "a@example.com"}, {Address: "b@example.com"}},
 		Telephones: []*org.Telephone{{Number: "+41446681800"}}})
 	add("party-min", &org.Party{Name: "N"})
+	add("party-coords", &org.Party{Name: "Geo", Addresses: []*org.Address{{Locality: "Madrid", Country: "ES", Street: "Gran V\u00eda", Number: "1",
+		Coordinates: &org.Coordinates{Latitude: f64(40.4168), Longitude: f64(-3.7038)}}}})
+	add("message-crlf", &note.Message{Content: "Payment due within 30 days.\r\nLate payments accrue interest.\nThanks"})
 	_ = bill.Invoice{}
 	return out
 }
@@ -527,7 +559,8 @@ func Run(c *core.Ctx) int {
 			// keep every edit of the root members (cheap, and where migrations live), sample the rest
 			var keep []job
 			for _, j := range jobs {
-				if len(j.e.Path) <= 1 || len(keep) < want {
+				// also every edit of the small generated bases and every sign / line-ending edit
+				if len(j.e.Path) <= 1 || strings.HasPrefix(j.b.name, "generated/") || j.e.Kind == "negate-leaf" || j.e.Kind == "swap-cr-lf" || len(keep) < want {
 					keep = append(keep, j)
 				}
 			}
